@@ -366,26 +366,39 @@ def drive(run_fn, judge, sig_of, bound, horizon, choices=None, max_runs=None):
 
     judge(obs) -> list of (key, msg, observed, expected)
     Returns a dict with viol (first per key, carrying the choice sequence),
-    states, transitions, traces, cut, sigs, capped and `sample` (a completed
-    choice sequence with the most deviations seen, for the replay self-test).
+    states, transitions, traces, cut, sigs, capped, `sample` (a completed
+    choice sequence with the most deviations seen, for the replay self-test)
+    and `next_level` (the exact number of executions that bound+1 would add).
     """
     res = {"viol": {}, "states": 0, "transitions": 0, "traces": 0, "cut": 0,
-           "sigs": set(), "capped": False, "sample": None, "maxlen": 0}
+           "sigs": set(), "capped": False, "sample": None, "maxlen": 0,
+           "next_level": 0}
+    last = {}
+
+    def tracked(cr):
+        last["cr"] = cr
+        return run_fn(cr)
+
     if choices is not None:
-        out, cut = replay(run_fn, list(choices), horizon)
+        out, cut = replay(tracked, list(choices), horizon)
         it = [(list(choices), out, cut)]
     else:
-        it = explore(run_fn, bound, horizon, max_runs)
+        it = explore(tracked, bound, horizon, max_runs)
     best = -1
     for taken, out, cut in it:
         res["states"] += 1
         res["traces"] += 1
         res["transitions"] += len(taken)
         res["maxlen"] = max(res["maxlen"], len(taken))
+        dev = sum(1 for c in taken if c)
+        if choices is None and dev == bound:
+            # executions the next deviation level would add below this one
+            cr = last["cr"]
+            res["next_level"] += sum(m - 1
+                                     for m in cr.menus[len(cr.prefix):])
         if cut:
             res["cut"] += 1
             continue
-        dev = sum(1 for c in taken if c)
         if dev > best:
             best, res["sample"] = dev, list(taken)
         res["sigs"].add(sig_of(out))
